@@ -28,6 +28,13 @@ CLAIMED = {
             "engine's reported layering on the C01 scope.",
             "trusted: the structural invariant in mc/props/c04.py; boundary-ambiguous capacity cases are counted, not judged",
             "DESIGN.md section 4 C04"),
+    "C05": ("bounded-exhaustive exploration of complete small problem spaces (DAG and cyclic constraint graphs, weights, "
+            "scales, relabellings) on the real vpsc.Solver, decided by an exact weak-duality optimality certificate and an exact "
+            "active-set QP reference",
+            "Every instance of the stated small spaces is solved by the real solver and checked for termination, feasibility, "
+            "cost consistency and optimality: a dual lower bound evaluated in rationals proves the returned cost is within 1e-4 of "
+            "optimal; rejections are confirmed by the exact QP. Thorough adds n=5 and families to 60 variables.",
+            "trusted: mc/oracles.py (dual bound arithmetic, qp_exact), self-tested against PAVA in ./setup", "DESIGN.md section 4 C05"),
     "C20": ("exhaustive enumeration of the finite domain (all indices 0..10^6, all hex codes) on the real functions",
             "Complete enumeration: every index 0..10^6 against the shortlex sequence, every 3-digit code and (thorough) "
             "every 6-digit code in both cases against integer parsing. Within the stated domain this is total coverage.",
